@@ -647,9 +647,11 @@ def write_evidence(prop, tier, seed, results, violations, knowns, infra, wall):
     assumptions = set(meta.get("assumptions", []))
     trusted = set(getattr(registry, "TRUSTED_BASE", []))
     unit_rows = []
+    known_ids = {(r.name, o["id"]) for r, o, k in knowns}
     for r in results:
         u = r.unit
-        mine = [o for o in r.obligations if ob_belongs(o, prop, u)]
+        # obligations that fail as a recorded known finding are reported separately, not counted as proof obligations
+        mine = [o for o in r.obligations if ob_belongs(o, prop, u) and (r.name, o["id"]) not in known_ids]
         ok = [o for o in mine if o["status"] == "SUCCESS"]
         by_class = {}
         for o in mine:
